@@ -52,6 +52,11 @@ def _cmd_c2(self, a):
     return a
 
 
+def _cmd_struct(self, a, b=0):
+    """command with a struct argument (b optional)"""
+    return a + b
+
+
 def _plain_c(self, a):
     """plain method"""
     return a
@@ -140,7 +145,8 @@ def _body_items(body):
 
 def _composites():
     """parameters whose datatype keeps its mutable state in MEMBER datatypes (fixed part of every root class)"""
-    from frappy.core import ArrayOf, EnumType, FloatRange, IntRange, Parameter, ScaledInteger, StructOf, TupleOf
+    from frappy.core import ArrayOf, Command, EnumType, FloatRange, IntRange, Parameter, ScaledInteger, StructOf, \
+        TupleOf
     from frappy.datatypes import LimitsType, TextType
     from frappy.params import Limit
     from frappy.core import Property
@@ -154,6 +160,10 @@ def _composites():
         'tup': Parameter('a tuple', TupleOf(FloatRange(unit='$'), IntRange(0, 9)), default=(0, 0), readonly=False),
         'arr': Parameter('an array', ArrayOf(FloatRange(unit='$'), 0, 3), default=[], readonly=False),
         'sct': Parameter('a struct', StructOf(x=FloatRange(unit='$')), default={'x': 0}, readonly=False),
+        # caller supplied mutable constructor arguments: the optional list of a struct (parameter and command argument)
+        'sco': Parameter('a struct with optional members', StructOf(optional=['y'], x=FloatRange(), y=IntRange(0, 9)),
+                         default={'x': 0, 'y': 0}, readonly=False),
+        'cs': Command(StructOf(a=IntRange(0, 5), b=IntRange(0, 5)), result=IntRange())(_cmd_struct),
     }
 
 
@@ -203,6 +213,15 @@ def _mutate(obj, mut):
         obj.parameters['arr'].datatype.members.setProperty('min', -3)
     elif mut == 'sctmember':
         obj.parameters['sct'].datatype.members['x'].setProperty('unit', 'V')
+    elif mut == 'sctopt':         # in-place edits of mutable parts of ONE instance's datatype
+        obj.parameters['sco'].datatype.optional.append('x')
+    elif mut == 'sctoptrm':
+        obj.parameters['sco'].datatype.optional.remove('y')
+    elif mut == 'cmdopt':
+        obj.commands['cs'].argument.optional.append('a')
+    elif mut == 'sctdictadd':
+        from frappy.core import BoolType
+        obj.parameters['sct'].datatype.members['flag'] = BoolType()
     elif mut == 'scmember':
         obj.parameters['sc'].datatype.setProperty('max', 5)
     elif mut == 'enumname':
@@ -258,7 +277,16 @@ def _members(dt):
 def _verdicts_raw(dt):
     inner = _members(dt)
     if inner:       # composite: the limits live in the member datatypes
-        return '|'.join(_verdicts(m) for m in inner)
+        res = '|'.join(_verdicts(m) for m in inner)
+        if isinstance(getattr(dt, 'members', None), dict):      # struct: which members may be left out
+            full = {k: m.default for k, m in dt.members.items()}
+            for k in sorted(full):
+                try:
+                    dt.validate({q: v for q, v in full.items() if q != k})
+                    res += '+'
+                except Exception:
+                    res += '-'
+        return res
     res = []
     for v in PROBES:
         try:
@@ -560,7 +588,8 @@ Q_DER = ['ppty', 'props', 'bare', 'none']
 V_DER = ['unit', 'lim', 'dt']
 C_DER = ['cmd', 'cprops', 'cgroup', 'method', 'none']
 MUTS = ['setmax', 'setmin', 'setunit', 'reginput', 'reginput2', 'pvis', 'cmdarg', 'cmdres', 'statustext', 'tgtmin',
-        'limmember', 'tupmember', 'arrmember', 'sctmember', 'scmember', 'enumname']
+        'limmember', 'tupmember', 'arrmember', 'sctmember', 'scmember', 'enumname',
+        'sctopt', 'sctoptrm', 'cmdopt', 'sctdictadd']
 
 
 def random_program(rnd, nclasses, ninst, nmut):
@@ -709,6 +738,13 @@ def run(chk):
                 'instances related by inheritance / equal key')
     for m in ('ClassModel', 'Gen_ClassModel', 'Trace_ClassModel'):
         sany(m)
+    # the harness' own fixture must work (a refused class is an observation - but not for the plain root)
+    probe = _run_forked([{'act': 'defclass', 'x': 'k1', 'bases': [],
+                          'body': {'mixin': False, 'p': 'new', 'c': 'cmd', 'm': '-', 'w': '-'}},
+                         {'act': 'instantiate', 'x': 'i1', 'c': 'k1', 'cfg': '-'}])
+    if len(probe) != 2 or probe[-1]['bad']:
+        from ..core import MachineryError
+        raise MachineryError('C09 fixture: the plain root class / instance can not be created: %r' % probe[-1]['desc'])
     chk.add_tlc(model_check('ClassModel', 'MC_ClassModel_quick.cfg' if quick else 'MC_ClassModel_thorough.cfg',
                             timeout=1000))
     # spec -> code: TLC's programs
@@ -765,7 +801,7 @@ def run(chk):
     if traces:
         chk.sample({'program': glist[len(glist) // 2][0], 'desc_after_last_op': traces[len(glist) // 2][-1]['desc']})
     # code -> spec: random programs beyond the catalogue
-    n = 250 if quick else 3000
+    n = 200 if quick else 3000
     seeds = [chk.seed * 1000003 + i for i in range(n)]
     rtraces = pool_map(_random_trace, seeds)
     phase('random')
